@@ -122,6 +122,13 @@ def h_simple(ctx, which):
         if r is not None:
             e, v = call(r.get_dir_listing_options)
             ctx.holds("listing options returned exactly", e is None and v is not None and sym_and(v.recursive == rec, v.all == al), exc_name(e))
+            # the options read from one message, handed on unchanged to build the next one (a relay); and given as 0/1
+            if e is None and v is not None:
+                e2, raw2 = call(lambda: DirectoryListingParameters(v).pack())
+                ctx.holds("a message rebuilt from the options just read packs to the same octets", e2 is None and raw2 == r.pack(), exc_name(e2))
+        for form, (x, y) in (("integers", (int(rec) if not ctx.symbolic else rec, int(al) if not ctx.symbolic else al)),):
+            e3, raw3 = call(lambda: DirectoryListingParameters(DirListingOptions(x, y)).pack())
+            ctx.holds("options given as 0/1 integers pack to the same flag octet", e3 is None and raw3[-1] == ((rec << 1) | al), exc_name(e3))
 
 
 def h_orig_id(ctx, w1, w2):
